@@ -34,6 +34,12 @@ func none(condition, data any) (bool, error) {
 	case []immutable.Option[float64]:
 		return noneSlice(condition, t)
 
+	case []float32:
+		return noneSlice(condition, t)
+
+	case []immutable.Option[float32]:
+		return noneSlice(condition, t)
+
 	default:
 		return false, nil
 	}
